@@ -10,6 +10,7 @@ var verifHarnesses = map[string]any{
 	"Verif_C02_Faults":          Verif_C02_Faults,
 	"Verif_C02_IOFaults":        Verif_C02_IOFaults,
 	"Verif_C07_Effects":         Verif_C07_Effects,
+	"Verif_C05_AloneVsThree":    Verif_C05_AloneVsThree,
 	"Verif_C05_AloneVsTogether": Verif_C05_AloneVsTogether,
 	"Verif_C06_Dispatch":        Verif_C06_Dispatch,
 	"Verif_C08_History":         Verif_C08_History,
